@@ -185,6 +185,17 @@ func makeVisit(r *lib.Run, e *hist.Engine, fam sigFamily, prop, config, threads 
 						r.Violate(fmt.Sprintf("%s:%s:build-fails", fam.Name(), ed.Kind), w, "incremental build fails where a clean build of the same tree succeeds:\n"+obs.Output)
 					} else if len(fresh) > 0 {
 						cls := fmt.Sprintf("%s:%s:differs=%s", fam.Name(), ed.Kind, strings.Join(fresh, ","))
+						// With a cache, an entry stored under a name-blind directory hash (known C09 defect) can be restored for a
+						// tree that differs only in names, many edits later. Such violations carry a marker so that the listed
+						// finding never covers a staleness that arises WITHOUT a name-only change earlier in the history.
+						if prop == "C02" && ed.Kind != "rename-in-output-dir" && ed.Kind != "output-dir-shape" && ed.Kind != "rename-in-source-dir" {
+							for _, h := range histry[:len(histry)-1] {
+								if strings.HasPrefix(h, "d_fname=") || strings.HasPrefix(h, "d_extra=") || strings.HasPrefix(h, "s_name=") {
+									cls += ":after-name-only-directory-change-in-history"
+									break
+								}
+							}
+						}
 						var dd []string
 						for _, l := range strings.Split(d, "\n") {
 							for _, t := range fam.Targets(ed.Src) {
